@@ -49,6 +49,8 @@ where
     first_step: Option<Float>,
     /// Initial value of the independent variable
     x0: Float,
+    /// Final value of the independent variable
+    xend: Float,
     /// Flag tracking whether the first-step output has been enforced
     first_output_done: bool,
     // Pre-allocated buffers for event detection (avoid per-step allocations)
@@ -71,6 +73,7 @@ where
         collect_dense: bool,
         first_step: Option<Float>,
         x0: Float,
+        xend: Float,
         n_states: usize,
     ) -> Self {
         let n_events = ode.n_events();
@@ -96,6 +99,7 @@ where
             yold: Vec::new(),
             first_step,
             x0,
+            xend,
             first_output_done: false,
             // Pre-allocate buffers for event detection
             g_curr_buf: vec![0.0; n_events],
@@ -394,8 +398,11 @@ impl<'a, F: IVP> SolOut for DefaultSolOut<'a, F> {
                 // the target, then interpolate to the exact point.
                 if !self.first_output_done && (xold - *x).abs() > self.tol {
                     let direction = (*x - xold).signum();
-                    // For backward integration (direction < 0), target is x0 - h0
-                    let target = self.x0 + direction * h0;
+                    // For backward integration (direction < 0), target is x0 - |h0|.
+                    // The solvers take |h0| in the direction of integration and never step
+                    // past xend, so the target does the same.
+                    let step = h0.abs().min((self.xend - self.x0).abs());
+                    let target = self.x0 + direction * step;
                     
                     if direction * (*x - target) >= -self.tol {
                         // We've reached or passed the target point
